@@ -143,7 +143,8 @@ PROPS = {
                   "C19_slice_returns_owned", "C19_step", "C19_no_double_drop",
                   "C19_teardown_no_double_drop", "C19_no_stale_read", "C19_invariant_after_any_history",
                   "C19_faulting_delete_leaves", "C19_delete_kills_first", "C19_maintain_merges_first",
-                  "C19_other_storages_untouched"],
+                  "C19_other_storages_untouched", "C19_changeset_add", "C19_changeset_no_double_drop",
+                  "C19_changeset_no_stale_read"],
         required="faithful",
         nontrivial="the armed destructor fault really fired and a later destroying operation (or at least two later "
                    "operations) ran on the surviving world",
